@@ -432,6 +432,10 @@ def onEvent (s : St) (b : Book) (o : Obs) (_ : Book) : St × List Viol :=
       let v2 := if execAtCall && j.entered > j.exited && st != .processing then [s!"status of job {k} read {repr st} while its worker function was running"] else []
       (s, v1 ++ v2)
     | none => (s, [])
+  | .ret _ cid _ (.jstatus k none) =>
+    -- the harness only calls Status() on a handle it holds: a string outside the five names is not a
+    -- position on the chain Created … Closed at all
+    ({ s with calls := s.calls.filter (·.1 != cid) }, [s!"status of job {k} read a value that is none of Created, Queued, Processing, Finished, Closed"])
   | .ret _ _ _ (.jwait k st) =>
     ({ s with waited := k :: s.waited, floor := upsert s.floor k 4 },
       if st != some .closed then [s!"status of job {k} read {repr st} right after Wait returned"] else [])
